@@ -165,6 +165,39 @@ def call(req):
         if fn == "ecfb":
             return net.edge_current_flow_betweenness()
         return [net.vertex_current_flow_betweenness(i) for i in S]
+    if fn == "nsi_kernel":
+        # `_nsi_betweenness` at its own boundary (arrays of the kernel's declared dtypes)
+        from pyunicorn.core._ext.numerics import _nsi_betweenness
+        _nsi_betweenness(S[0], A[0], A[1], A[2], A[3], A[4])
+        return None
+    if fn == "nsi_public":
+        # the public method on a real Network; what it hands to the kernel is captured, contents
+        # included, so that the parent can test the contract of the in-bounds theorem on it
+        import pyunicorn.core.network as nw
+        cap = []
+        real = nw._nsi_betweenness
+
+        def rec(N, w, k, flat, is_source, targets):
+            cap.append("%d|%s|%s|%d|%d|%s" % (
+                int(N), ",".join(str(int(x)) for x in k) or "-",
+                ",".join(str(int(x)) for x in flat) or "-", len(w), len(is_source),
+                ",".join(str(int(x)) for x in targets) or "-"))
+            return real(N, w, k, flat, is_source, targets)
+        nw._nsi_betweenness = rec
+        try:
+            net = nw.Network(adjacency=A[0], directed=bool(S[0]),
+                             node_weights=A[1] if len(A) > 1 else None, silence_level=3)
+            kw = {}
+            if S[1] is not None:
+                kw["sources"] = S[1]
+            if S[2] is not None:
+                kw["targets"] = S[2]
+            net.nsi_betweenness(nsi=bool(S[3]), **kw)
+            if S[4]:            # a second call on the same object (cached measures, other targets)
+                net.nsi_betweenness(targets=S[4], nsi=bool(S[3]))
+        finally:
+            nw._nsi_betweenness = real
+        return ("str", ";".join(cap) or "-")
     if fn == "adaptive_kernel":
         from pyunicorn.timeseries._ext.numerics import _set_adaptive_neighborhood_size
         _set_adaptive_neighborhood_size(S[0], S[1], A[0], A[1], A[2])
@@ -418,6 +451,8 @@ def main():
             out = "ok"
             if isinstance(res, tuple) and len(res) == 3 and res[0] == "cnt":
                 out = f"ok:methods_ok={res[1]},methods_raise={res[2]}"
+            if isinstance(res, tuple) and len(res) == 2 and res[0] == "str":
+                out = "ok:" + res[1]
             if isinstance(res, tuple) and len(res) == 2 and res[0] == "vec":
                 out = "ok:" + (",".join(str(int(v)) for v in res[1]) or "-")
             if isinstance(res, tuple) and len(res) == 2 and res[0] == "mat":
